@@ -13,7 +13,7 @@ DISTINCT_RULE = (
 RULES = ["selection-exposure", "market-exposure", "exclusion", "new-order"]
 MINIMA = {"quick": {"rule_selection-exposure": 8000, "rule_market-exposure": 4000, "rule_exclusion": 3000}, "thorough": {"rule_selection-exposure": 400000}}
 ASSUMPTIONS = ["inputs of the brute force are the fields the exchange reports per bet (matched size, average matched price, remaining, limit, liability, status)", "tolerance 0.011 per selection (two 2-dp roundings)"]
-WEIGHTS = [("hostile", 3), ("plain", 2), ("deep", 2), ("multi", 1), ("recorded", 1)]
+WEIGHTS = [("hostile", 3), ("plain", 2), ("deep", 2), ("multi", 1), ("lines", 1), ("recorded", 1)]
 
 
 def plan(tier, seed):
